@@ -519,10 +519,14 @@ func VerifyObjectCopyAccess(ctx context.Context, be backend.Backend, copySource 
 	if err := VerifyAccess(ctx, be, opts); err != nil {
 		return err
 	}
-	// Verify source bucket access
-	srcBucket, srcObject, found := strings.Cut(copySource, "/")
-	if !found {
+	// Verify source bucket access: authorize the bucket and object that the
+	// backend will read, i.e. what backend.ParseCopySource makes of the header
+	if copySource == "" {
 		return s3err.GetAPIError(s3err.ErrInvalidCopySource)
+	}
+	srcBucket, srcObject, _, err := backend.ParseCopySource(copySource)
+	if err != nil {
+		return err
 	}
 
 	// Get source bucket ACL
